@@ -74,6 +74,7 @@ struct Case {
   long p[4] = {0, 0, 0, 0};
   int corr = 0, upd = 1, tol = 1, tight = 0, k = 1, mf = 0;
   int it = 50;  // iter_max (50 = the solver default; only the reuse histories use other values)
+  int lim = 0;  // 1 = iteration-limit calibration of this case (run_limit)
 };
 
 static std::string cstr(const Case &c) {
@@ -82,6 +83,7 @@ static std::string cstr(const Case &c) {
     << ";corr=" << CORR[c.corr] << ";upd=" << UPD[c.upd] << ";tol=" << TOL[c.tol] << ";tight=" << c.tight
     << ";k=" << c.k << ";mf=" << c.mf;
   if (c.it != 50) s << ";it=" << c.it;
+  if (c.lim) s << ";lim=" << c.lim;
   return s.str();
 }
 static int find(const char *const *tab, int n, const std::string &s) {
@@ -103,6 +105,7 @@ static Case cparse(const std::string &s) {
   c.k = atoi(m.at("k").c_str());
   c.mf = atoi(m.at("mf").c_str());
   if (m.count("it")) c.it = atoi(m.at("it").c_str());
+  if (m.count("lim")) c.lim = atoi(m.at("lim").c_str());
   return c;
 }
 
@@ -569,10 +572,12 @@ static Run solve_real(const MatrixXd &H, bool ham, const Case &c, bool matrix_fr
 }
 
 static bsx::Outcome run_history(const Case &c, bool verbose);
+static bsx::Outcome run_limit(const Case &c, bool verbose);
 
 // `given`: evaluate the per-solve oracle on this result (obtained on a reused solver object) instead of solving
 static bsx::Outcome run_case(const Case &c, bool verbose = false, const Run *given = nullptr) {
   if (c.fam == 'r') return run_history(c, verbose);
+  if (c.lim && !given) return run_limit(c, verbose);
   bsx::Outcome o;
   std::string cas = cstr(c);
   auto failwith = [&](const std::string &key, const std::string &what) {
@@ -1115,6 +1120,73 @@ static bsx::Outcome run_history(const Case &hc, bool verbose) {
   return o;
 }
 
+// ------------------------------------------------------------------ iteration limit as a dimension (lim=1)
+// "for diagonally dominant matrices it does report success within the iteration limit": a solve that needs k iterations must
+// report Success whenever iter_max >= k.  Self-calibrating per tree: K = num_iterations() of a solve with the default limit (50) on
+// the tree under test = index of the iteration in which it converged, i.e. it needs K+1 iterations (the trajectory does not
+// depend on the limit).  Then iter_max = K+1 and K+2 must give Success with the same roots, iter_max = K (if K >= 1) must give
+// NoConvergence; each of these results also goes through the per-solve oracle.
+static bsx::Outcome run_limit(const Case &c0, bool verbose) {
+  bsx::Outcome o;
+  std::string cas = cstr(c0);
+  auto failwith = [&](const std::string &key, const std::string &what) {
+    o.ok = false;
+    o.key = key;
+    o.what = what + "  [" + cas + "]";
+    return o;
+  };
+  Case c = c0;
+  c.lim = 0;
+  MatrixXd H;
+  bool ham = false;
+  if (!build(c, H, ham)) { o.extra = "skip"; return o; }
+  const Index n = H.rows();
+  const double scale = std::max(1.0, H.cwiseAbs().maxCoeff());
+  bool demanded = !ham && strictly_dd(H);
+  if (demanded) {
+    Eigen::SelfAdjointEigenSolver<Eigen::Matrix<long double, Eigen::Dynamic, Eigen::Dynamic>> es(H.cast<long double>(), Eigen::EigenvaluesOnly);
+    double lam = std::max(std::fabs(double(es.eigenvalues()(0))), std::fabs(double(es.eigenvalues()(c.k - 1))));
+    demanded = DBL_EPSILON * double(n) * lam <= 0.01 * TOLV[c.tol];
+  }
+  if (!demanded) { o.extra = "skip-limit-not-demanded"; return o; }
+  c.it = 50;  // the default limit: everything beyond it is outside the ordinary space (and meets the Gram-Schmidt defect at ~65 it.)
+  Run big = solve_real(H, ham, c, c.mf != 0, nullptr);
+  if (big.status != "S") {  // does not converge at all / throws: the ordinary cases (and their known classes) cover that
+    o.extra = "skip-limit-no-success-with-50";
+    return o;
+  }
+  const Index K = big.iters;
+  auto sname = [](const Run &r) { return r.status == "S" ? std::string("Success") : r.status == "N" ? std::string("NoConvergence") : "threw '" + r.threw + "'"; };
+  const std::string need = "the solve converges in iteration index " + std::to_string(K) + " (needs " + std::to_string(K + 1) + " iterations, measured with iter_max=50)";
+  for (Index lim : {K + 1, K + 2, K}) {
+    if (lim < 1) continue;
+    c.it = int(lim);
+    Run r = solve_real(H, ham, c, c.mf != 0, nullptr);
+    if (lim > K) {
+      const char *which = lim == K + 1 ? "limit-exactly-sufficient-not-success" : "limit-more-than-sufficient-not-success";
+      if (r.status != "S")
+        return failwith(which, need + " but with iter_max=" + std::to_string(lim) + " the solver reports " + sname(r) + " after iteration index " +
+                                   std::to_string(r.iters) + " (diagonally dominant: success is required within the limit)");
+      if (r.iters != K || !((r.th - big.th).cwiseAbs().maxCoeff() <= 1e-12 * scale) || !((r.V - big.V).cwiseAbs().maxCoeff() <= 1e-12))
+        return failwith("limit-changes-result", need + " but with iter_max=" + std::to_string(lim) + " it stops in iteration " + std::to_string(r.iters) +
+                                                    " with values " + vecstr(r.th) + " instead of " + vecstr(big.th));
+    } else {
+      if (r.status == "S")
+        return failwith("limit-insufficient-reports-success", need + " but with iter_max=" + std::to_string(lim) + " the solver reports Success");
+      if (r.status != "N")
+        return failwith("limit-insufficient-not-noconvergence", need + " but with iter_max=" + std::to_string(lim) + " the solver " + sname(r));
+    }
+    bsx::Outcome po = run_case(c, false, &r);  // roots lowest / residuals / flagged roots
+    if (!po.ok) return failwith(po.key, "iter_max=" + std::to_string(lim) + ": " + po.what);
+  }
+  o.cls = bsx::fnv("l|" + std::to_string(K) + "|" + std::string(1, c.fam));
+  o.extra = "K" + std::to_string(std::min<Index>(K, 20));
+  if (verbose || g_track.seen.insert("l" + o.extra).second)
+    o.what = cas + " -> " + need + "; iter_max=" + std::to_string(K + 1) + "," + std::to_string(K + 2) + " Success with identical roots" +
+             (K >= 1 ? ", iter_max=" + std::to_string(K) + " NoConvergence" : "");
+  return o;
+}
+
 // ------------------------------------------------------------------ enumeration
 struct Block {
   std::string name;
@@ -1231,6 +1303,35 @@ static std::vector<Block> blocks(const std::string &tier) {
                       return c; }});
     }
   }
+  // iteration limit as a dimension of the diagonally dominant families (b, and the graded members of e)
+  for (int n : thorough ? std::vector<int>{8, 16, 40} : std::vector<int>{16}) {
+    std::vector<int> ks = neigens(n, false);
+    long nk = long(ks.size());
+    bl.push_back({"limit:b-n" + std::to_string(n), 5L * NPAT * 3 * nk * 48 * 2, [=](long i) {
+                    Case c; c.fam = 'b'; c.n = n; c.lim = 1;
+                    c.mf = int(i % 2); i /= 2;
+                    setopt(c, 0, int(i % 48)); i /= 48;
+                    c.k = ks[i % nk]; i /= nk;
+                    c.p[2] = i % 3; i /= 3;
+                    c.p[1] = i % NPAT; i /= NPAT;
+                    c.p[0] = i % 5;
+                    return c; }});
+    bl.push_back({"limit:e-graded-n" + std::to_string(n), NGRADE * 2L * 2 * nk * 48 * 2, [=](long i) {
+                    Case c; c.fam = 'e'; c.n = n; c.p[0] = 1; c.lim = 1;
+                    c.mf = int(i % 2); i /= 2;
+                    setopt(c, 0, int(i % 48)); i /= 48;
+                    c.k = ks[i % nk]; i /= nk;
+                    c.p[2] = i % 2; i /= 2;
+                    c.p[3] = i % 2; i /= 2;
+                    c.p[1] = i % NGRADE;
+                    return c; }});
+  }
+  // ... and of the strictly diagonally dominant members of the 4x4 lattice (many are solved by the initial guess: iter_max=1)
+  bl.push_back({"limit:c-lattice4x4", NLATC * nopts(1), [=](long i) {
+                  Case c; c.fam = 'c'; c.n = 4; c.k = 1; c.lim = 1;
+                  c.p[0] = i % NLATC;
+                  setopt(c, 1, int(i / NLATC));
+                  return c; }});
   // e: large-norm operators (shifted / graded diagonals), SYMM dense + matrix-free and HAM
   for (int n : thorough ? std::vector<int>{8, 16, 40} : std::vector<int>{8, 16}) {
     std::vector<int> ks = neigens(n, false);
@@ -1312,7 +1413,10 @@ int main(int argc, char **argv) {
       "plus the same as block A of the BSE form (HAM); (operator, tolerance) pairs with eps*n*|wanted root| > tol/100 are not part of "
       "the space (counter skipped_tolerance_below_double_rounding_of_wanted_roots); reference in long double. For EVERY family the "
       "residual |A v - theta v| of every returned pair is recomputed in long double and must be <= selected tol * 1.001 + 4 n "
-      "eps_longdouble || |A||v| + |theta||v| || (the rounding of the recomputation, < 1e-3 tol for all operators here). Family r = solver-object reuse: all ordered pairs (quick) / "
+      "eps_longdouble || |A||v| + |theta||v| || (the rounding of the recomputation, < 1e-3 tol for all operators here). Iteration limit (lim=1) on the diagonally dominant "
+      "families b and e/graded (n=16 quick; 8,16,40 thorough; all options) and the dd members of the 4x4 lattice (2 option sets): K = iteration index of convergence measured with iter_max=50 on "
+      "the tree under test; iter_max=K+1 and K+2 must report Success with identical roots, iter_max=K NoConvergence, each result also "
+      "through the per-solve oracle. Family r = solver-object reuse: all ordered pairs (quick) / "
       "triples (thorough) over 9 (matrix, options) elements {easy dd, OLSEN+matrix-free, iter_max 2/1/3 NoConvergence, other n and "
       "neigen, n=8, HAM, explicit search-space limit} solved on ONE solver object with options set through the public setters; after "
       "every solve the result must equal a fresh solver's (status, iterations, values, vectors to 1e-12) and pass the per-solve oracle.";
@@ -1347,6 +1451,10 @@ int main(int argc, char **argv) {
     bsx::contained(
         lo, hi, [&](long long j) { return run_case(decode(j * ns + a.shard)); },
         [&](long long j, const bsx::Outcome &o) {
+          if (o.extra.rfind("skip-limit", 0) == 0) {
+            R.counters[o.extra == "skip-limit-not-demanded" ? "limit_skipped_success_not_demanded" : "limit_skipped_no_success_with_iter_max_50"]++;
+            return;
+          }
           if (o.extra == "skip" || o.extra == "skip-illconditioned" || o.extra == "skip-unresolvable") {
             R.counters[o.extra == "skip" ? "skipped_not_positive_definite" : o.extra == "skip-unresolvable" ? "skipped_tolerance_below_double_rounding_of_wanted_roots" : "skipped_illconditioned_bse"]++;
             return;
